@@ -392,7 +392,7 @@ func (e *Env) applyCore(op *Op) []string {
 			e.path = filepath.Join(e.dir, fmt.Sprintf("img%d.sif", e.fileSeq))
 			_ = os.Remove(e.path)
 		} else {
-			e.buf = sif.NewBuffer(nil)
+			e.buf = sif.NewBuffer(dirtyCap(nil))
 		}
 		var opts []sif.CreateOpt
 		for _, c := range op.COpts {
@@ -458,7 +458,7 @@ func (e *Env) applyCore(op *Op) []string {
 				return []string{"res err:other"}
 			}
 		} else {
-			e.buf = sif.NewBuffer(b)
+			e.buf = sif.NewBuffer(dirtyCap(b))
 		}
 		rw, err := e.rw()
 		if err != nil {
@@ -477,7 +477,7 @@ func (e *Env) applyCore(op *Op) []string {
 		if e.backend == "file" {
 			_ = e.f.UnloadContainer()
 		} else {
-			e.buf = sif.NewBuffer(append([]byte(nil), e.buf.Bytes()...))
+			e.buf = sif.NewBuffer(dirtyCap(e.buf.Bytes()))
 		}
 		rw, err := e.rw()
 		if err != nil {
@@ -906,4 +906,17 @@ func (e *Env) applyTransplant(op *Op) []string {
 	obs := e.applyCore(so)
 	op.Raw = so.Lines()
 	return obs
+}
+
+// dirtyCap returns a copy of b whose spare capacity (64 KiB beyond len) holds non-zero bytes: a
+// recycled slice, as a caller of NewBuffer may well pass.  Whatever the Buffer exposes beyond its
+// length must come from what was written, never from there.
+func dirtyCap(b []byte) []byte {
+	out := make([]byte, len(b), len(b)+64<<10)
+	copy(out, b)
+	spare := out[len(b):cap(out)]
+	for i := range spare {
+		spare[i] = 0xAA
+	}
+	return out
 }
